@@ -25,6 +25,7 @@ def _regress(res):
     for path in sorted(glob.glob(os.path.join(core.VERIF, "corpus", PROP, "regress", "*.json"))):
         case = json.load(open(path))
         ok, msg = replay(path)
+        msg = ([ln for ln in msg.splitlines() if ln.startswith("REPLAY-")] or [msg.strip()])[-1]
         name = os.path.basename(path)
         res.coverage["regression_replays"] = res.coverage.get("regression_replays", 0) + 1
         if case.get("expect") == "violation":
@@ -89,7 +90,7 @@ def run(tier, seed, res):
                 "consumer's copy and a CHK task re-reads the producer's tile after all consumers of the tile finished.  The JDF text is instantiated "
                 "from reshape.jdf.in / consumer.jdf.in and compiled with the tree's parsec-ptgpp.  configuration: m, n in 2..6, ld = m..m+2, "
                 "triangles with or without diagonal, 1..3 tiles, 1..4 ranks, placement of producer and consumers per tile, 1..4 threads, "
-                "scheduler, runtime_comm_short_limit in {default, 0, 16, 64, 256, 4096}, body delay.  Oracle (Python, from the logged tile "
+                "scheduler, runtime_comm_short_limit in {default, 0, 16, 64, 256, 4096}, broadcast topology in {default, star, chain, binomial}, body delay.  Oracle (Python, from the logged tile "
                 "contents): on entry the elements selected by the edge's datatypes hold the producer's values (pack with the output-side type, "
                 "unpack with the input-side type; [type] on local edges, [type_remote] on remote edges); at the end of the body and again after "
                 "all consumers, a READ consumer's selected elements are unchanged and an RW consumer's tile holds only its own marker; the "
@@ -100,11 +101,17 @@ def run(tier, seed, res):
                        "only of an edge is never generated",
                        "an RW consumer is only placed where the documented semantics give it a copy of its own: not the producer's copy (no reshape) "
                        "and not on a rank with another consumer of the same datatype pair (copies of equal shape are shared by design)",
-                       "documented unsupported case excluded: when two different remote datatype pairs of one flow go to one rank, "
+                       "documented unsupported case excluded: when two different messages (<type, type_remote> combinations) of one flow go to one rank, "
                        "runtime_comm_short_limit is forced to 0 (label excl_short_limit_forced_0_several_remote_shapes; C18_ALLOW_SHORT_MULTI_REMOTE=1 re-enables)",
                        "finding C18-F1 excluded: all output dependencies of the producer's flow carry the same [type =] (label "
                        "excl_F1_mixed_output_types_made_uniform; C18_ALLOW_MIXED_OUT_TYPES=1 re-enables; corpus/C18/regress/F1_*.json reproduce it)",
-                       "hangs are decided by the in-process quiescence watchdog (3 tries with doubled quiescence time); plain timeouts are inconclusive"]
+                       "finding C18-F2 excluded: no process receives a PACKED message (one message, two reception datatypes) together with another "
+                       "message of the same flow (label excl_F2_packed_plus_other_remote_shape_redrawn; C18_ALLOW_PACKED_PLUS_SHAPE=1 re-enables; "
+                       "corpus/C18/regress/F2_*.json)",
+                       "finding C18-F3 excluded (not type related): when an RW consumer sits on a remote rank and the same message also goes to another "
+                       "remote rank the star broadcast is forced (label excl_F3_star_broadcast_forced_rw_consumer_on_forwarding_rank; "
+                       "C18_ALLOW_FORWARD_AFTER_RW=1 re-enables; corpus/C18/regress/F3_*.json)",
+                       "hangs are decided by the in-process quiescence watchdog over all ranks (3 tries with doubled quiescence time); plain timeouts are inconclusive"]
     floor = 20 if quick else 600
     if not res.violations and res.inconclusive is None and res.distinct_nontrivial < floor:
         res.inconclusive = "only %d non-trivial cases executed (floor %d)" % (res.distinct_nontrivial, floor)
